@@ -148,6 +148,9 @@ PreDgrams(pre, q) ==
     \* right ID, TWO questions: the victim's first, the outstanding one second.  The question section of a
     \* reply is the outstanding question and nothing else, so this is one more wrong question ("Victim+q")
     [] pre = "twoq"     -> <<Dgram(TRUE, <<"victim+q">>, Msg("OK", <<A(Victim, "spoof", "att")>>, <<>>, <<>>))>>
+    \* a RUN of wrong-ID datagrams echoing the right question ahead of the genuine reply (the driver sends twelve):
+    \* however many there are, none of them is the reply
+    [] pre = "flood"    -> LET d == Dgram(FALSE, q, Msg("OK", <<A(q, "spoof", "att")>>, <<>>, <<>>)) IN <<d, d, d>>
     [] OTHER            -> <<>>
 
 -----------------------------------------------------------------------------
